@@ -262,6 +262,8 @@ ChildPlan World::OnSpawn(Kernel& kk, const std::string& cmd, bool console) {
     bool partial = c.killed || (status != 0 && fail_mode == 2);
     bool none = status != 0 && fail_mode == 0 && !c.killed;
     if (none) return;
+    // a manifest generator replaces build.ninja atomically or not at all
+    if (sv.regen && (partial || status != 0)) return;
     for (size_t i = 0; i < outs.size(); i++) {
       std::string content = OutputContent(sv, (int)i, snap, rsp_content);
       const DyndepFile* d = scp->FindDyndep(outs[i]);
@@ -383,6 +385,7 @@ InvRecord World::RunInvocation(const InvPlan& plan) {
   sp.faults = plan.fp;
   sp.faults.stream = plan.stream;
   sp.nproc = plan.nproc;
+  sp.record_stats = plan.record_sys;
   if (plan.jobserver) {
     k.MkFifo("js.fifo", std::string((size_t)plan.js_tokens, '+'));
     sp.env["MAKEFLAGS"] = " -j" + std::to_string(plan.js_tokens + 1) + " --jobserver-auth=fifo:js.fifo";
@@ -391,6 +394,7 @@ InvRecord World::RunInvocation(const InvPlan& plan) {
   std::string lb, ld;
   bool hb = k.ReadFile(sc.LogDir() + ".ninja_log", &lb), hd = k.ReadFile(sc.LogDir() + ".ninja_deps", &ld);
   r.log_before = FoldBuildLog(lb, hb);
+  r.log_torn_tail_before = hb && !lb.empty() && lb.back() != '\n';
   r.deps_before = FoldDepsLog(ld, hd);
   for (auto& kv : k.fs.nodes)
     if (kv.second->kind == Inode::kFile) r.fs_before[kv.first] = std::make_pair(FsHash(kv.second->data), kv.second->mtime);
@@ -413,7 +417,19 @@ InvRecord World::RunInvocation(const InvPlan& plan) {
       default: break;
     }
   };
+  InvRecord* rp = &r;
+  k.on_proc_exit = [self, rp]() {
+    for (auto& x : rp->spawns)
+      for (auto& o : x.outs) {
+        std::string c;
+        if (self->k.ReadFile(o, &c)) rp->outs_at_exit[o] = std::make_pair(c, self->k.Mtime(o));
+      }
+    for (auto& x : rp->spawns) if (!x.depfile.empty() && self->k.Exists(x.depfile)) rp->outs_at_exit[x.depfile] = std::make_pair(std::string(), self->k.Mtime(x.depfile));
+    rp->lock_at_exit = self->k.Exists(self->sc.LogDir() + ".ninja_lock");
+    for (auto& kv : self->live) rp->alive_at_exit.insert(kv.first);
+  };
   r.res = k.RunNinja(sp, this);
+  k.on_proc_exit = nullptr;
   k.on_event = nullptr;
   cur = nullptr;
   r.epochs = epoch;
